@@ -129,7 +129,10 @@ type scenario struct {
 	Offsets   []int // start offset per member, in blocks
 	JitterMS  int
 	RestartOf int // member to interrupt (-1: none)
-	RestartAt int // blocks after that member's start
+	RestartAt int // blocks after that member's start (with RestartWhen: after the condition became true)
+	// RestartWhen makes the first interruption state-triggered: the run is cancelled as soon as the
+	// chain shows the named stage boundary (see stageReached)
+	RestartWhen string
 	// second interruption: another member, or the same one again after its restart (-1: none)
 	Restart2Of int
 	Restart2At int
@@ -169,6 +172,13 @@ func scenarios(tier string, seed uint64) []scenario {
 		s.RestartOf, s.RestartAt = 0, 30+r.IntN(80)
 		res = append(res, s)
 		res = append(res, lateMajority(jit(mk(4, "late-majority")), r))
+		// the only member is interrupted right at a stage boundary (seeded change C13-3: a restart between the two role designations)
+		s = mk(1, "stage-restart")
+		s.RestartOf, s.RestartWhen, s.RestartAt = 0, "notary-designated", 0
+		res = append(res, s)
+		s = jit(mk(2, "stage-restart"))
+		s.RestartOf, s.RestartWhen, s.RestartAt = r.IntN(2), runner.Pick(r, stages), r.IntN(3)
+		res = append(res, s)
 		return res
 	}
 	for n := 1; n <= 7; n++ {
@@ -207,6 +217,17 @@ func scenarios(tier string, seed uint64) []scenario {
 		res = append(res, s)
 		if n >= 3 {
 			res = append(res, lateMajority(jit(mk(n, "late-majority")), r))
+		}
+		if n <= 2 {
+			for _, st := range stages {
+				s = jit(mk(n, "stage-restart"))
+				s.RestartOf, s.RestartWhen, s.RestartAt = r.IntN(n), st, r.IntN(2)
+				res = append(res, s)
+			}
+		} else {
+			s = jit(mk(n, "stage-restart"))
+			s.RestartOf, s.RestartWhen, s.RestartAt = r.IntN(n), runner.Pick(r, stages), r.IntN(3)
+			res = append(res, s)
 		}
 	}
 	return res
@@ -276,6 +297,37 @@ func buildPrm(nd *node.Node, i int, a *adapter, log *zap.Logger) (deploy.Prm, er
 	prm.Glagolitsa = glagolitsa{}
 	return prm, nil
 }
+
+// stageReached: chain-observable boundaries between the stages of the procedure.
+func stageReached(nd *node.Node, stage string) bool {
+	resolves := func(name string) bool {
+		h, err := nd.Chain.GetContractScriptHash(1)
+		if err != nil {
+			return false
+		}
+		recs, err := (&chainReader{nd: nd}).resolveTXT(h, name)
+		return err == nil && len(recs) > 0
+	}
+	switch stage {
+	case "nns-deployed":
+		_, err := nd.Chain.GetContractScriptHash(1)
+		return err == nil
+	case "notary-designated":
+		return notaryDesignated(nd)
+	case "alphabet-designated":
+		ks, _, _ := nd.Chain.GetDesignatedByRole(noderoles.NeoFSAlphabet)
+		return len(ks) > 0
+	case "proxy-registered":
+		return resolves("proxy.neofs")
+	case "netmap-registered":
+		return resolves("netmap.neofs")
+	case "container-registered":
+		return resolves("container.neofs")
+	}
+	return false
+}
+
+var stages = []string{"nns-deployed", "notary-designated", "alphabet-designated", "proxy-registered", "netmap-registered", "container-registered"}
 
 func notaryDesignated(nd *node.Node) bool {
 	ks, _, _ := nd.Chain.GetDesignatedByRole(noderoles.P2PNotary)
@@ -389,7 +441,20 @@ func runScenario(b *runner.Batch, sc scenario) {
 			at = sc.Restart2At
 		}
 		if at >= 0 {
+			when := ""
+			if nth == 0 && sc.RestartOf == i {
+				when = sc.RestartWhen
+			}
 			go func() {
+				for when != "" && !stageReached(nd, when) && time.Since(start) < watchdog && nd.Height() < 3*blockBudget {
+					mu.Lock()
+					d := runs[i].done
+					mu.Unlock()
+					if d {
+						return
+					}
+					time.Sleep(blockTime / 4)
+				}
 				waitBlocks(at)
 				mu.Lock()
 				if !runs[i].done {
@@ -537,6 +602,10 @@ wait:
 		b.Hit("restart-survived")
 		if sc.RestartOf == 0 {
 			b.Hit("leader-restart-survived")
+		}
+		if sc.RestartWhen != "" {
+			b.Hit("restart-at-stage-boundary")
+			b.Hit("restart-at:" + sc.RestartWhen)
 		}
 	}
 	if sc.N >= 4 {
@@ -909,13 +978,13 @@ func runC13(b *runner.Batch) {
 func init() {
 	runner.Register(&runner.Check{
 		ID: "C13", Level: "exploration",
-		Rule: "Scenarios on a real in-process neo-go node (blockchain, network server with mempool and notary request pool, Notary service, RPC server with in-process clients, harness block producer as logical clock): every committee member runs the public deploy.Deploy with the embedded contracts; a scenario fixes committee size (quick 1,2,3,4,4,3,4; thorough 1..7 x 8-9), per-member start offsets, per-call delays injected at the RPC boundary, optionally an interruption of one member at a PRNG-chosen block followed by a restart, optionally a second interruption (of the same or another member), optionally a minority of non-leading members absent until the Notary role appears, optionally a 'late majority' (one member short of a majority publishes signatures, the completing member joins 135 blocks after the last early signature appeared in the NNS; the monitor confirms that the shared transaction data was generated again in between). Judged: return values, progress within 1500 blocks, roles, NNS id and records, executables by checksum, ContractManagement Deploy event counts, submissions the node refuses as invalid, a second run over the finished chain (no Deploy/Update/Designation event, NNS storage unchanged), and Go race detector reports with a frame in neofs-contract/deploy (the child binary is built with -race). Pure helpers through verif-tagged exports: fund division exhaustive for 0..2000 x 1..41 plus uint64 boundaries, nonce/validity window for heights 0..10000 and the last 300 below 2^32, shared-transaction-data codec round trips. distinct = scenario (size, label, outcome) and helper class.",
+		Rule: "Scenarios on a real in-process neo-go node (blockchain, network server with mempool and notary request pool, Notary service, RPC server with in-process clients, harness block producer as logical clock): every committee member runs the public deploy.Deploy with the embedded contracts; a scenario fixes committee size (quick 1,2,3,4,4,3,4; thorough 1..7 x 8-9), per-member start offsets, per-call delays injected at the RPC boundary, optionally an interruption of one member at a PRNG-chosen block followed by a restart, optionally a state-triggered interruption (the run is cancelled when the chain shows a stage boundary: NNS deployed, Notary role designated, NeoFSAlphabet role designated, proxy / netmap / container registered), optionally a second interruption (of the same or another member), optionally a minority of non-leading members absent until the Notary role appears, optionally a 'late majority' (one member short of a majority publishes signatures, the completing member joins 135 blocks after the last early signature appeared in the NNS; the monitor confirms that the shared transaction data was generated again in between). Judged: return values, progress within 1500 blocks, roles, NNS id and records, executables by checksum, ContractManagement Deploy event counts, submissions the node refuses as invalid, a second run over the finished chain (no Deploy/Update/Designation event, NNS storage unchanged), and Go race detector reports with a frame in neofs-contract/deploy (the child binary is built with -race). Pure helpers through verif-tagged exports: fund division exhaustive for 0..2000 x 1..41 plus uint64 boundaries, nonce/validity window for heights 0..10000 and the last 300 below 2^32, shared-transaction-data codec round trips. distinct = scenario (size, label, outcome) and helper class.",
 		Assumptions: []string{"neo-go v0.107.0 node components are the trusted base", "goroutine interleavings are sampled, not enumerated; a replay re-runs the scenario parameters and carries the recorded RPC log of the failing run as witness",
 			"funding transfers (GAS top-ups, notary deposits) of a second run are logged, not judged"},
 		Batches: func(t string) int { return 1 + len(scenarios(t, 1)) },
 		NoTree:  true, Chunk: 1, Race: true, MaxParallel: 6,
 		ChildTimeout: func(string) time.Duration { return 20 * time.Minute },
-		Floors:       []string{"helper:divideFundsEvenly", "helper:transactionModifier", "helper:sharedTransactionData", "completed-n1", "completed-n2", "completed-n3", "completed-n4", "restart-survived", "leader-restart-survived", "absent-minority-bootstrap", "majority-completed-after-shared-data-expiry", "idempotence-rerun", "designation-with>=2-remote-signatures"},
+		Floors:       []string{"helper:divideFundsEvenly", "helper:transactionModifier", "helper:sharedTransactionData", "completed-n1", "completed-n2", "completed-n3", "completed-n4", "restart-survived", "leader-restart-survived", "restart-at-stage-boundary", "restart-at:notary-designated", "absent-minority-bootstrap", "majority-completed-after-shared-data-expiry", "idempotence-rerun", "designation-with>=2-remote-signatures"},
 		Run:          runC13,
 		Exhaustive: func(string) (bool, string) {
 			return true, "fund division for all amounts 0..2000 x 1..41 receivers; nonce/validity window for all heights 0..10000 (deployment scenarios are sampled)"
